@@ -311,6 +311,12 @@ class FortranAST:
                     inc.scope_objs = added_entities
                     # PUBLIC/PRIVATE statements that name included entities
                     self.apply_visibility()
+                elif added_entities:
+                    # The included file no longer declares anything
+                    for obj in added_entities:
+                        if parent_scope is not None and obj in parent_scope.children:
+                            parent_scope.children.remove(obj)
+                    inc.scope_objs = []
             elif added_entities:
                 # The included file is gone, drop what it had contributed
                 for obj in added_entities:
